@@ -17,6 +17,10 @@ META = {
 
 
 def relation(a, proof):
+    if proof["k"] == "exact":                      # the valid 20-byte scramble for pw1
+        return "right" if a["pw"] == "pw1" and a["plugin"] == "native" else "wrong"
+    if proof["k"] == "empty":
+        return "right" if a["pw"] == "none" else "wrong"
     if proof["k"] != "password":
         return "-"
     return "right" if proof["pw"] == a["pw"] else "wrong"
@@ -97,7 +101,7 @@ def check(tier):
         lib.tlc_ok(rsets, "Auth/sets")
         sets = [x["accts"] for x in rsets.jsons("ACCTS")]
         atts = rsets.jsons("ATTEMPTS")
-        if len(sets) < 1000 or not atts or len(atts[0]["attempts"]) < 30:
+        if len(sets) < 1000 or not atts or len(atts[0]["attempts"]) < 50:
             raise lib.Inconclusive("enumeration too small: %d account sets" % len(sets))
         atts = atts[0]["attempts"]
         key = lambda a: (a["user"], a["tls"], a["proof"]["k"], a["proof"]["base"], a["proof"]["n"], a["proof"]["pw"])
@@ -110,8 +114,15 @@ def check(tier):
         pairs = [s for s in sets if len(s) == 2]
         pick = lib.sample(singles, nsets // 3, rnd) + lib.sample(pairs, nsets - nsets // 3, rnd)
         cases = []
-        for s in pick:
+        # an "exact" attempt costs about 256 handshakes (the driver reconnects until the server's salt has
+        # the shape): in the quick tier every second sampled account set gets them
+        nexact = 0
+        for k, s in enumerate(pick):
             for a in atts:
+                if a["proof"]["k"] == "exact":
+                    if quick and k % 2:
+                        continue
+                    nexact += 1
                 cases.append({"id": len(cases) + 1, "accts": s, "att": a})
         wit = witnesses()
         for c in wit:
@@ -172,6 +183,23 @@ def check(tier):
         multi = sum(1 for s in sts if s["cands"] > 1)
         if len(sts) != len(cases) or pattern < len(cases) // 10 or accepts < 20:
             raise lib.Inconclusive("vacuous: %d judged of %d, %d through a host pattern, %d expected accepts" % (len(sts), len(cases), pattern, accepts))
+        # the hand-made responses must have met the accounts they are about
+        by_kind = {}
+        for st in sts:
+            d = by_kind.setdefault(st["k"], {"cases": 0, "expected_accept": 0, "classes": set()})
+            d["cases"] += 1
+            d["expected_accept"] += 1 if st["accept"] else 0
+            d["classes"] |= set(st["class"])
+        for d in by_kind.values():
+            d["classes"] = sorted(d["classes"])
+        exact_accept = by_kind.get("exact", {}).get("expected_accept", 0)
+        padded_pw = sum(1 for st in sts if st["k"] == "padded" and st["natpw"])
+        allnul_nopw = sum(1 for st in sts if st["k"] == "allnul" and st["natnopw"])
+        empty_accept = by_kind.get("empty", {}).get("expected_accept", 0)
+        if min(exact_accept, padded_pw, allnul_nopw, empty_accept) < 4:
+            raise lib.Inconclusive("vacuous: %d valid scrambles on a chosen salt expected to be accepted, %d NUL-padded scrambles against a native account with password, "
+                                   "%d all-NUL responses against a native account without password, %d empty responses expected to be accepted"
+                                   % (exact_accept, padded_pw, allnul_nopw, empty_accept))
         rc = v.finish()
         lib.write_evidence("C40", tier, "model_checking", {
             "states": r.distinct, "transitions": r.generated,
@@ -183,6 +211,11 @@ def check(tier):
             "rule": "evaluations = connection attempts made against the real listener and judged by TLC; non-trivial = the attempt is matched through an account whose host is not the literal 'localhost' (127.0.0.1, %%, 127.0.0.%%: alias or pattern matching decides); %d attempts the specification accepts, %d with more than one candidate account" % (accepts, multi),
             "enumeration": {"config": mc_cfg, "account_sets": len(sets), "attempts_per_set": len(atts), "tlc_wall_s": round(r.wall, 1)},
             "sampled_account_sets": len(pick),
+            "by_proof_kind": by_kind,
+            "hand_made_responses": {"valid_scramble_on_chosen_salt_cases": nexact, "of_them_expected_accept": exact_accept,
+                                    "nul_padded_scramble_vs_native_account_with_password": padded_pw,
+                                    "all_nul_vs_native_account_without_password": allnul_nopw,
+                                    "empty_response_expected_accept": empty_accept},
             "by_outcome": rep["extra"]["by_outcome"],
             "server_crashes": rep["extra"]["server_crashes"], "server_panics_logged": rep["extra"]["server_panics_logged"],
             "mismatch_signatures": {s: len(ms) for s, ms in by_sig.items()}, "forged_trace_selftest": forged,
